@@ -151,7 +151,7 @@ func c20Unit(name string, lvl int) core.Unit {
 			}
 			rank, off, _ := m.Rank(idx, 1)
 			if off > 0 {
-				r.Internalf("C20 %s: the clean sub-universe is not totally preordered (C01 must be fixed or its known-finding classes extended first)", name)
+				r.Incompletef("C20 %s: Compare is not a total preorder on the sub-universe (reported by C01); equal-class and convexity checks presuppose it and were skipped for this ecosystem", name)
 				return
 			}
 			cls, nc := order.Classes(rank)
